@@ -13,6 +13,10 @@ fn main() {
         usage();
     }
     let id = args[0].clone();
+    if id == "mkcorpus" {
+        engine::fuzzrun::mkcorpus(&args[1], args[2].parse().unwrap_or(40), 300);
+        return;
+    }
     if id == "warm" {
         engine::e2::warm();
         return;
